@@ -182,7 +182,7 @@ fn run_hash(ctx: &mut Ctx) {
         }
     }
     // in circuit: every length 0..12
-    let creps = if ctx.quick() { 1 } else { 4 };
+    let creps = if ctx.quick() { 2 } else { 4 };
     for len in 0..=12usize {
         for rep in 0..creps {
             let inputs = gen_inputs(&mut rng, len, if rep == 0 { 3 } else { rep - 1 });
@@ -320,7 +320,7 @@ fn run_sponge(ctx: &mut Ctx) {
         ctx.case(kind, true, &format!("sponge cpu {s}"), &ans);
     }
     // in circuit (scripts that do not panic off circuit)
-    let m = if ctx.quick() { 10 } else { 60 };
+    let m = if ctx.quick() { 25 } else { 80 };
     let mut done = 0;
     for (il, script) in &cases {
         if done >= m {
@@ -405,8 +405,10 @@ fn run_varlen(ctx: &mut Ctx) {
     }
     let adv = F::random(&mut rng);
     if ctx.quick() {
-        sweep::<4>(ctx, &mut rng, &[F::ZERO, adv]);
-        sweep::<8>(ctx, &mut rng, &[adv]);
+        sweep::<2>(ctx, &mut rng, &[adv]);
+        sweep::<4>(ctx, &mut rng, &[F::ZERO, adv, -F::ONE]);
+        sweep::<8>(ctx, &mut rng, &[adv, F::ONE]);
+        sweep::<12>(ctx, &mut rng, &[adv]);
     } else {
         sweep::<2>(ctx, &mut rng, &[F::ZERO, adv, -F::ONE]);
         sweep::<4>(ctx, &mut rng, &[F::ZERO, adv, -F::ONE]);
@@ -461,7 +463,7 @@ fn cell_hex(c: &CellValue<F>) -> String {
 fn run_trace(ctx: &mut Ctx) {
     let mut rng = ctx.rng("poseidon-trace");
     let (qf, qp) = poseidon_selectors();
-    let n = if ctx.quick() { 6 } else { 60 };
+    let n = if ctx.quick() { 12 } else { 60 };
     let skips = 5usize;
     for t in 0..n {
         let inputs: Vec<F> = if t == 0 { vec![F::ZERO, F::ZERO] } else { vec![rand_elem(&mut rng), rand_elem(&mut rng)] };
